@@ -402,10 +402,18 @@ class Verifier(Engine):
             if isinstance(v, VNoneT):
                 return VOpt(z3.BoolVal(True), fresh(kind[4:]))
             return VOpt(z3.BoolVal(False), v)
+        # a definite value of another type than the declared one: the contract does not describe this call (assuming
+        # its postcondition would be unsound, e.g. `self.f == arg` between a str field and an object is just False)
+        base = kind.split(':')[0]
+        want = {'str': (VStr,), 'int': (VInt, VBool), 'bool': (VBool,), 'pos': (VTuple,), 'ref': (VRef, VNoneT, VPy),
+                'list': (VList, VRef, VNoneT)}.get(base)
+        if want is not None and isinstance(v, (VStr, VInt, VBool, VTuple, VRef, VList, VMap)) and not isinstance(v, want):
+            raise OutOfSubset('argument of kind %s where the contract declares %s' % (kind_of(v), kind))
         return v
 
     def call_contract(self, st, qual, args, kwargs, is_property=False, setter=False):
         key = qual + ('.setter' if setter else '')
+        key = self.ctr.call_keys.get(key, key)
         ctr = REG.get(key)
         if ctr is None:
             raise BindingError('call to %s: no contract' % key)
@@ -510,26 +518,44 @@ class Verifier(Engine):
         post_state.env = dict(env)
         post_state.env['result'] = res
         old_state = pre_state
+        # exceptions the callee may raise: the postcondition describes normal return only, so it is assumed under
+        # "no exception escaped"; each exceptional exit sees the havocked state and what raises_ensures says of `exc`
+        raise_conds = []
+        if not st.spec:
+            for exc in ctr.raises:
+                cond_text = ctr.exc_ensures.get(exc)
+                c = z3.Bool(fresh_name('raises_' + exc))
+                if cond_text is not None:
+                    only, _ = self.spec_eval(pre_state, cond_text, ctr)
+                    st.pc.append(z3.Implies(c, only))
+                val, facts = None, []
+                clauses = ctr.raises_ensures.get(exc)
+                if clauses and classes.get(exc) is not None:
+                    xr = st.alloc(exc.lower())
+                    val = VRef(xr, exc)
+                    xs = st.fork()
+                    xs.env = dict(env)
+                    xs.env['exc'] = val
+                    self._old_stack.append(old_state)
+                    try:
+                        for cl in clauses:
+                            t, new = self.spec_eval(xs, cl, ctr)
+                            facts += list(new) + [t]
+                    finally:
+                        self._old_stack.pop()
+                raise_conds.append((c, exc, val, facts))
+        normal = z3.Not(z3.Or([c for c, _, _, _ in raise_conds])) if raise_conds else None
         self._old_stack.append(old_state)
         try:
-            for t_ in ctr.theories:
-                pass
             for ens in ctr.ensures:
                 t, new = self.spec_eval(post_state, ens, ctr)
                 for f in new:
                     st.assume(f)
-                st.assume(t)
+                st.assume(t if normal is None else z3.Implies(normal, t))
         finally:
             self._old_stack.pop()
-        # exceptions the callee may raise
-        if not st.spec:
-            for exc in ctr.raises:
-                cond_text = ctr.exc_ensures.get(exc)
-                if cond_text is None:
-                    c = z3.Bool(fresh_name('raises_' + exc))
-                else:
-                    c, _ = self.spec_eval(pre_state, cond_text, ctr)
-                st.may_raise(c, exc, 'call %s' % qual)
+        for c, exc, val, facts in raise_conds:
+            st.may_raise(c, exc, 'call %s' % qual, val, facts)
         return res
 
     def havoc_field(self, st, fld):
@@ -623,13 +649,14 @@ class Verifier(Engine):
         """Fork on the pending exception conditions of the expressions just evaluated."""
         outs = []
         pend, st.pend = st.pend, []
-        for cond, exc, site in pend:
+        for cond, exc, site, val, facts in pend:
             if z3.is_false(z3.simplify(cond)):
                 continue
             r = st.fork()
             r.pc.append(cond)
+            r.pc += list(facts)
             if smt.feasible(r.pc):
-                outs.append(Outcome('exc', r, exc=exc, site='%s@s%s' % (site, self.cur_site)))
+                outs.append(Outcome('exc', r, val=val, exc=exc, site='%s@s%s' % (site, self.cur_site)))
             else:
                 self.note('safe:%s@s%s' % (exc, self.cur_site), DISCHARGED, site)
             st.pc.append(z3.Not(cond))
@@ -686,7 +713,7 @@ class Verifier(Engine):
     def st_Return(self, st, s):
         v = self.ev.ev(st, s.value) if s.value is not None else VNONE
         outs = self.split_pend(st)
-        return outs + [Outcome('ret', st, v)]
+        return outs + [Outcome('ret', st, v, site='return@s%s' % self.cur_site)]
 
     def st_Assign(self, st, s):
         v = self.ev.ev(st, s.value)
@@ -775,13 +802,21 @@ class Verifier(Engine):
         name = 'Exception'
         if s.exc is not None:
             x = s.exc
+            val = None
             if isinstance(x, ast.Call):
-                # evaluate arguments for their side conditions
-                for a in x.args:
-                    try:
-                        self.ev.ev(st, a)
-                    except OutOfSubset:
-                        pass
+                fn = x.func
+                cname = fn.id if isinstance(fn, ast.Name) else getattr(fn, 'attr', None)
+                q = classes.qualname(cname, '__init__') if classes.get(cname or '') is not None else None
+                if q is not None and q in REG:
+                    # the raised object is built like any other (its constructor contract applies)
+                    val = self.ev.ev(st, x)
+                else:
+                    # evaluate arguments for their side conditions
+                    for a in x.args:
+                        try:
+                            self.ev.ev(st, a)
+                        except OutOfSubset:
+                            pass
                 x = x.func
             if isinstance(x, ast.Name):
                 name = x.id
@@ -789,8 +824,9 @@ class Verifier(Engine):
                 name = x.attr
         else:
             name = st.env.get('$handling', 'Exception')
+            val = None
         st.pend = []
-        return [Outcome('exc', st, exc=name, site='raise@s%s' % self.cur_site)]
+        return [Outcome('exc', st, val=val, exc=name, site='raise@s%s' % self.cur_site)]
 
     def st_Break(self, st, s):
         return [Outcome('brk', st)]
